@@ -322,6 +322,11 @@ class OverrideSpec:
                 self.binop_semantics(ex, ctx, outcome, op, v1, v2)
         if outcome[0] == 'return':
             ex.prove('C09:%s:operands-evaluated' % n, ['C09', 'C07'], len(calls) >= 1)
+        child_raised = bool(calls) and calls[-1][5] is not None
+        if outcome[0] == 'raise' and calls and not child_raised:
+            # the operation itself failed: every operand it needs was evaluated first (exactly once, in order)
+            ex.prove('C09:%s:operation-applied-only-after-both-operands-were-evaluated' % n, ['C09', 'C07'],
+                     z3.Or(lazy, z3.BoolVal(len(calls) == 2)), {'evaluated': len(calls)})
 
     ARITH = {'+': '+', '-': '-', '*': '*', '**': '**', '/': '/'}
     CMP = {'==': 'Eq', '!=': 'NotEq', '>': 'Gt', '<': 'Lt', '>=': 'GtE', '<=': 'LtE', 'in': 'In', 'not in': 'NotIn'}
